@@ -5,6 +5,7 @@ import (
 	"crypto/sha256"
 	"fmt"
 	"os"
+	"runtime"
 	"runtime/debug"
 	"sort"
 	"sync"
@@ -21,7 +22,7 @@ import (
 )
 
 // fee rates in satoshi per 1000 virtual bytes; few distinct values so that equal rates are common
-var feeRates = []uint64{0, 1, 250, 1000, 1000, 1001, 2000, 5000, 20000, 100000}
+var feeRates = []uint64{0, 250, 1000, 1000, 1001, 2000, 3000, 5000, 20000, 100000}
 
 type stats struct {
 	checks, submitted, admitted, replaced, minedBlocks, minedTxs, undoneTxs int
@@ -219,12 +220,69 @@ func (r *run) close() {
 	}
 }
 
+// refusedNonFinal: the block assembled from the listing was refused as bad-txns-nonfinal and every
+// offending entry carries a time-based lock (the shape of the open finding C12-reorg-median-time-back).
+type refusedNonFinal struct{ msg string }
+
+func (e *refusedNonFinal) Error() string { return e.msg }
+
+// inReorgTimeLockClass is the class predicate of the open finding C12-reorg-median-time-back, over the
+// generated case only: the history holds a transaction with a time-based lock that is final when it is
+// built (pool spec Lock 2 or a block transaction of the engine with Lock 2) and, later, a block operation
+// that builds on something else than the tip (a fork that can become a reorganisation) or a deep
+// reorganisation.
+func inReorgTimeLockClass(c Case) bool {
+	locked := false
+	for _, op := range c.Ops {
+		if op.Tx != nil && op.Tx.Lock == 2 {
+			locked = true
+		}
+		if locked && op.K == "deepreorg" {
+			return true
+		}
+		if op.K == "blk" && op.Blk != nil {
+			if locked && op.Blk.Kind == "block" && op.Blk.Parent != -1 {
+				return true
+			}
+			for _, t := range op.Blk.Txs {
+				if t.Lock == 2 {
+					locked = true
+				}
+			}
+		}
+	}
+	return false
+}
+
+const keyReorgMTP = "C12-reorg-median-time-back"
+
+var hangBound = func() time.Duration {
+	if v, err := time.ParseDuration(os.Getenv("VERIF_C12_HANG")); err == nil && v > 0 {
+		return v // dev use
+	}
+	return 300 * time.Second
+}()
+
 // runCase executes a history; the error is the first violated invariant (or engine disagreement).
 func runCase(c Case) (st *stats, err error) {
 	st = &stats{rejected: map[byte]int{}}
 	r := &run{c: c, st: st, built: map[[32]byte]*built{}, blockTxs: map[*sim.MNode][][32]byte{}}
 	defer r.close()
 	defer r.harvestCounters()
+	// A history takes a second or two.  A generous bound turns an endless loop inside the pool (it would hold
+	// TxMutex for ever) into a dead worker, which the driver reports together with the case in flight.
+	done := make(chan struct{})
+	defer close(done)
+	go func() {
+		select {
+		case <-done:
+		case <-time.After(hangBound):
+			fmt.Fprintf(os.Stderr, "C12-HANG: the history did not finish within %v (step %d); goroutines:\n", hangBound, r.step)
+			buf := make([]byte, 1<<16)
+			os.Stderr.Write(buf[:runtime.Stack(buf, true)])
+			os.Exit(4)
+		}
+	}()
 	if err = r.setup(); err != nil {
 		return st, err
 	}
@@ -234,9 +292,15 @@ func runCase(c Case) (st *stats, err error) {
 	for i, op := range c.Ops {
 		r.step = i
 		r.s.CurStep = i
+		if os.Getenv("VERIF_C12_TRACE") != "" {
+			fmt.Fprintf(os.Stderr, "C12 step %d: %s\n", i, describe(op))
+		}
 		if e := r.exec(op); e != nil {
 			if x, ok := e.(*sim.Excluded); ok {
 				return st, x
+			}
+			if x, ok := e.(*refusedNonFinal); ok {
+				return st, &refusedNonFinal{fmt.Sprintf("step %d (%s): %v", i, describe(op), x.msg)}
 			}
 			return st, fmt.Errorf("step %d (%s): %v", i, describe(op), e)
 		}
@@ -246,6 +310,10 @@ func runCase(c Case) (st *stats, err error) {
 		return st, fmt.Errorf("after the last step: %v", e)
 	}
 	st.excluded = append(st.excluded, r.s.ExcludedKeys...)
+	if os.Getenv("VERIF_C12_TRACE") != "" {
+		r.harvestCounters()
+		fmt.Fprintf(os.Stderr, "C12 done: submitted %d admitted %d replaced %d mined %d/%d classes %v\n", st.submitted, st.admitted, st.replaced, st.minedBlocks, st.minedTxs, st.classes())
+	}
 	return st, nil
 }
 
@@ -329,6 +397,8 @@ func (r *run) exec(op Op) error {
 		return r.series(op)
 	case "mine":
 		return r.mine(op)
+	case "deepreorg":
+		return r.deepReorg(op)
 	case "tick":
 		r.tick(op)
 	case "save":
@@ -386,10 +456,17 @@ func sortCoins(l []coinRef) {
 func (r *run) candidates() (*cands, error) {
 	txpool.TxMutex.Lock()
 	pool, err := r.readPoolLocked()
+	var orphans [][32]byte
+	for _, txr := range txpool.TransactionsRejected {
+		if txr.Waiting4 != nil && txr.Tx != nil {
+			orphans = append(orphans, txr.Id.Hash)
+		}
+	}
 	txpool.TxMutex.Unlock()
 	if err != nil {
 		return nil, err
 	}
+	sort.Slice(orphans, func(i, j int) bool { return bytes.Compare(orphans[i][:], orphans[j][:]) < 0 })
 	cd := &cands{pool: pool, byID: map[[32]byte]*poolTx{}, spentBy: map[[36]byte][32]byte{}}
 	for i := range pool {
 		cd.byID[pool[i].id] = &pool[i]
@@ -425,10 +502,15 @@ func (r *run) candidates() (*cands, error) {
 			}
 		}
 	}
-	for _, id := range r.withheld {
+	heldIDs := append([][32]byte{}, r.withheld...)
+	heldIDs = append(heldIDs, orphans...) // grandchildren of a withheld parent
+	for _, id := range heldIDs {
 		b := r.built[id]
+		if b == nil {
+			continue
+		}
 		for j, o := range b.tx.Out {
-			if r.s.B.Spendable(o.PkScript) {
+			if r.s.B.Spendable(o.PkScript) && o.Value > 0 {
 				cd.held = append(cd.held, coinRef{consensus.OutKey(id, uint32(j)), o.Value, o.PkScript})
 			}
 		}
@@ -587,8 +669,32 @@ func (r *run) buildTx(ts *TxSpec, cd *cands, forced *coinRef) *built {
 					}
 				}
 				take(l, sel.Sel)
+			case 12:
+				// the confirmed output whose pooled spender has the most descendants
+				best, bestN := -1, -1
+				for i, c := range cd.confSpent {
+					d := map[[32]byte]bool{}
+					cd.withDescendants(cd.spentBy[c.key], d)
+					if len(d) > bestN && !used[c.key] {
+						best, bestN = i, len(d)
+					}
+				}
+				if best >= 0 {
+					take(cd.confSpent, best)
+				}
+			case 11:
+				// an output index the withheld parent does not have
+				if len(cd.held) > 0 {
+					c := cd.held[mod(sel.Sel, len(cd.held))]
+					c.key[32], c.key[33] = byte(7+sel.Sel%5), 0
+					if !used[c.key] {
+						used[c.key] = true
+						coins = append(coins, coinRef{c.key, 1000000, r.s.B.True()})
+						valid = false
+					}
+				}
 			case 10:
-				l := append(append([]coinRef{}, cd.poolFree...), cd.poolSpent...)
+				l := append(append(append([]coinRef{}, cd.poolFree...), cd.poolSpent...), cd.held...)
 				if len(l) > 0 {
 					c := l[mod(sel.Sel, len(l))]
 					c.key[8+mod(sel.Sel, 24)] ^= 0x40 // same first 8 bytes (the pool's index), different transaction
@@ -1154,6 +1260,20 @@ func (r *run) mine(op Op) error {
 				if tryAdd(r.built[id]) {
 					done = true
 					r.st.label("mined_withheld_parent")
+					if op.Arg&8 != 0 {
+						// ... and, in the same block, a spender of one of its outputs (what an orphan waiting for
+						// this parent may want to spend too)
+						for j, o := range r.built[id].tx.Out {
+							if r.s.B.Spendable(o.PkScript) && o.Value > 0 {
+								c := coinRef{consensus.OutKey(id, uint32(j)), o.Value, o.PkScript}
+								ts := &TxSpec{Ins: []InSel{{}}, Outs: []sim.OutSpec{{Fam: 0, Share: 1}}, Rate: 3}
+								if b := r.buildTx(ts, cd, &c); b != nil && tryAdd(b) {
+									r.st.label("mined_withheld_parent_and_spender")
+								}
+								break
+							}
+						}
+					}
 				}
 			}
 			ts := &TxSpec{Ins: []InSel{{Src: 0, Sel: op.Pick}}, Outs: []sim.OutSpec{{Fam: op.Pick, Share: 40, N: op.Pick}, {Fam: 0, Share: 60}}, Rate: 3}
@@ -1188,8 +1308,50 @@ func (r *run) mine(op Op) error {
 		}
 	}
 
+	n, err := r.ownBlock(parent, txs, fees, op.DT, op.Net)
+	what := fmt.Sprintf("block at height %d assembled from the first %d of %d entries of %s (weight budget %d) plus %d foreign transactions", height, fromPool, len(raws), which, budget, len(txs)-fromPool)
+	if err != nil {
+		if _, ok := err.(*sim.Excluded); ok {
+			return err
+		}
+		return fmt.Errorf("%s: %v", what, err)
+	}
+	if s.Tip != n {
+		reason := n.CheckErr
+		if reason == nil {
+			reason = n.ConnErr
+		}
+		detail := ""
+		timeLockedOnly := true
+		for i, tx := range txs[:fromPool] {
+			if e := consensus.CheckTransaction(tx); e != nil {
+				detail += fmt.Sprintf("; entry %d (%x): %v", i, revHex(tx.TxID()), e)
+			}
+			if !consensus.IsFinalTx(tx, height, int64(parent.Idx.MedianTimePast())) {
+				if tx.LockTime < consensus.LocktimeThreshold {
+					timeLockedOnly = false
+				}
+				detail += fmt.Sprintf("; entry %d (%x) is not final at height %d / median time %d (lock time %d)", i, revHex(tx.TxID()), height, parent.Idx.MedianTimePast(), tx.LockTime)
+			}
+		}
+		msg := fmt.Sprintf("%s was refused by the node's block validation (the reference refuses it too: %v)%s", what, reason, detail)
+		if reason != nil && reason.Error() == "bad-txns-nonfinal" && timeLockedOnly {
+			return &refusedNonFinal{msg}
+		}
+		return fmt.Errorf("%s", msg)
+	}
+	r.st.minedBlocks++
+	r.st.minedTxs += fromPool
+	return r.check(op)
+}
+
+// ownBlock builds a block with the given transactions on parent (any known node), registers it with the
+// engine and hands it to the node through the engine's delivery (which keeps model and node in lock-step).
+func (r *run) ownBlock(parent *sim.MNode, txs []*wire.Tx, fees uint64, dt int, net bool) (*sim.MNode, error) {
+	s := r.s
+	height := parent.Idx.Height + 1
 	hdr := wire.Header{Version: 4, PrevBlock: parent.Idx.Hash, Bits: consensus.NextWorkRequired(parent.Idx, s.P)}
-	hdr.Time = parent.Idx.MedianTimePast() + 1 + uint32(mod(op.DT, 1200))
+	hdr.Time = parent.Idx.MedianTimePast() + 1 + uint32(mod(dt, 1200))
 	r.extra++
 	cb := env.Coinbase(height, []wire.TxOut{{Value: consensus.BlockSubsidy(height) + fees, PkScript: s.B.True()}}, 1<<62|r.extra, false)
 	blk := &wire.Block{Header: hdr, Txs: append([]*wire.Tx{cb}, txs...)}
@@ -1219,38 +1381,44 @@ func (r *run) mine(op Op) error {
 			k++
 		}
 	}
-	if op.Net {
+	if net {
 		txpool.BlockCommitInProgress(true)
 	}
 	err := s.Step(sim.Op{Kind: "deliver", Pick: pick})
-	if op.Net {
+	if net {
 		txpool.BlockCommitInProgress(false)
 	}
 	r.syncLast()
-	what := fmt.Sprintf("block at height %d assembled from the first %d of %d entries of %s (weight budget %d) plus %d foreign transactions", height, fromPool, len(raws), which, budget, len(txs)-fromPool)
-	if err != nil {
-		if _, ok := err.(*sim.Excluded); ok {
-			return err
-		}
-		return fmt.Errorf("%s: %v", what, err)
+	return n, err
+}
+
+// deepReorg replaces the last 100+k blocks of the active chain by a longer branch of empty blocks: the
+// coinbases that pooled transactions may have spent disappear with their blocks.
+func (r *run) deepReorg(op Op) error {
+	s := r.s
+	depth := consensus.CoinbaseMaturity + 1 + uint32(mod(op.Arg, 8))
+	if s.Tip.Idx.Height < depth {
+		depth = s.Tip.Idx.Height
 	}
-	if s.Tip != n {
-		reason := n.CheckErr
-		if reason == nil {
-			reason = n.ConnErr
-		}
-		detail := ""
-		for i, tx := range txs[:fromPool] {
-			if e := consensus.CheckTransaction(tx); e != nil {
-				detail += fmt.Sprintf("; entry %d (%x): %v", i, revHex(tx.TxID()), e)
-			}
-			if !consensus.IsFinalTx(tx, height, int64(parent.Idx.MedianTimePast())) {
-				detail += fmt.Sprintf("; entry %d (%x) is not final at height %d / median time %d (lock time %d)", i, revHex(tx.TxID()), height, parent.Idx.MedianTimePast(), tx.LockTime)
-			}
-		}
-		return fmt.Errorf("%s was refused by the node's block validation (the reference refuses it too: %v)%s", what, reason, detail)
+	if depth == 0 {
+		return nil
 	}
-	r.st.minedBlocks++
-	r.st.minedTxs += fromPool
+	fork := s.Tip
+	for i := uint32(0); i < depth; i++ {
+		fork = fork.Parent
+	}
+	old := s.Tip
+	parent := fork
+	for i := uint32(0); i <= depth; i++ {
+		n, err := r.ownBlock(parent, nil, 0, op.DT+int(i)*37, op.Net && i == depth)
+		if err != nil {
+			return fmt.Errorf("deep reorganisation, side block %d: %v", i, err)
+		}
+		parent = n
+	}
+	if s.Tip != parent {
+		return fmt.Errorf("deep reorganisation: the branch of %d empty blocks from height %d did not become the active chain (old tip height %d)", depth+1, fork.Idx.Height, old.Idx.Height)
+	}
+	r.st.label("deep_reorg")
 	return r.check(op)
 }
